@@ -515,7 +515,7 @@ class C28(PropertyCheck):
     extra_modules = ["PynguinModel.Model.Mutants"]
     driver = "Driver/C28.lean"
     n_quick = 16
-    n_thorough = 120
+    n_thorough = 40   # the interpreted driver needs ~10 s per abandoned higher-order round; 120 cases exceeded the 1800 s driver timeout under load
     n_search = 60
     rule = ("one case = one module (progen program, module with mixed node/placeholder child lists, operator-rich "
             "snippet or small stdlib module) x one mutator "
